@@ -284,18 +284,22 @@ def closed_domains(repo, res):
     f = rep.func("_compute_integral_ir")
     res.functions.add(f.key)
     table = None
-    for n in walk_no_nested(f.node):
+    # the table the function subscripts with the integral type: a local of the function or a module-level constant
+    for n in list(walk_no_nested(f.node)) + list(rep.tree.body):
         if isinstance(n, (ast.Assign, ast.AnnAssign)) and isinstance(n.value, ast.Dict):
             t = n.targets[0] if isinstance(n, ast.Assign) else n.target
-            if isinstance(t, ast.Name) and t.id == "_entity_types":
+            if isinstance(t, ast.Name) and t.id == "_entity_types" and table is None:
                 table = n.value
     if table is None:
-        raise AnalysisError("_entity_types table not found")
-    tv = {const_value(k): const_value(v) for k, v in zip(table.keys, table.values)}
-    key = f"{f.key}:_entity_types"
-    res.ob(key)
-    if set(tv) != set(itypes):
-        res.fail(key, f"_entity_types has keys {sorted(tv)} but supported_integral_types is {sorted(itypes)}", rep.line(table))
+        # no literal table of that name: the entity type of every integral type is decided by GEN-INTEGRAL-IR (function interpreted)
+        res.notes.append("_compute_integral_ir: no literal `_entity_types` table; entity type per integral type decided by GEN-INTEGRAL-IR alone")
+        tv = {}
+    else:
+        tv = {const_value(k): const_value(v) for k, v in zip(table.keys, table.values)}
+        key = f"{f.key}:_entity_types"
+        res.ob(key)
+        if set(tv) != set(itypes):
+            res.fail(key, f"_entity_types has keys {sorted(tv)} but supported_integral_types is {sorted(itypes)}", rep.line(table))
     want = {"cell": "cell", "exterior_facet": "facet", "interior_facet": "facet", "vertex": "vertex", "ridge": "ridge"}
     for k, v in tv.items():
         kk = f"{f.key}:_entity_types:{k}"
@@ -510,71 +514,108 @@ def _text_vars(t: str) -> set[str]:
     return _tv_cache[t]
 
 
-# (module, function, regex the guard's test must match (on ast.unparse text), description, extra check)
-REJECTIONS = [
-    ("ffcx.analysis", "_analyze_form", r"^form\.empty\(\)$", "empty forms"),
-    ("ffcx.analysis", "_analyze_form", r"^_has_custom_integrals\(form\)$", "custom integrals"),
-    ("ffcx.analysis", "_analyze_form", r"^any\(\(?e\.discontinuous for e in (\w+)\)?\)$", "discontinuous elements in vertex integrals"),
-    ("ffcx.analysis", "analyze_ufl_objects", None, "unrecognised UFL objects"),
-    ("ffcx.ir.representation", "_compute_expression_ir", r"^len\(argument_elements\) > 1$", "expressions with several arguments"),
-    ("ffcx.codegeneration.expression_generator", "ExpressionGenerator.__init__", r"^len\(list\(ir\.expression\.integrand\.keys\(\)\)\) != 1$", "several point sets"),
-    ("ffcx.codegeneration.expression_generator", "ExpressionGenerator.generate_block_parts", r"^'zeros' in ttypes$", "zero tables in blocks"),
-    ("ffcx.codegeneration.integral_generator", "IntegralGenerator.generate_block_parts", r"^'zeros' in ttypes$", "zero tables in blocks"),
-    ("ffcx.codegeneration.integral_generator", "IntegralGenerator.generate_block_parts", r"^len\(blockdata\.factor_indices_comp_indices\) > 1$", "non-scalar integrands"),
-    ("ffcx.ir.elementtables", "build_optimized_tables", r"^codim > 2$", "codimension > 2"),
-    ("ffcx.ir.elementtables", "build_optimized_tables", r"^use_sum_factorization and \(?not quadrature_rule\.has_tensor_factors\)?$", "sum factorisation without tensor rule"),
-    ("ffcx.ir.elementtables", "get_ffcx_table_values", None, "codimension > 2 in tabulation"),
-    ("ffcx.ir.integral", "analyse_dependencies", r"^not is_cellwise_constant\(v\['expression'\]\)$", "varying terminal without table"),
-    ("ffcx.codegeneration.lnodes", "merge_dtypes", r"^DataType\.NONE in dtypes$", "untyped operands in arithmetic"),
-    ("ffcx.codegeneration.lnodes", "ArrayAccess.__init__", None, "non-symbol array bases"),
-]
-
-
 @rule(
     "REJECTIONS",
     ["C19"],
-    "the explicit rejections of unsupported input are present, guard the documented condition and end in "
-    "`raise`; the vertex-integral guard inspects every element of the integral (arguments and "
-    "coefficients), not only the argument spaces",
-    min_instances=13,
+    "unsupported input is rejected with an exception, decided by interpreting the rejecting functions on one accepted and one "
+    "unsupported sample each: untyped operands in merge_dtypes; a non-symbol array base in ArrayAccess; zero tables and non-scalar "
+    "integrands in IntegralGenerator.generate_block_parts; zero tables in ExpressionGenerator.generate_block_parts; several point sets "
+    "in ExpressionGenerator.__init__. (An element of codimension 3 in build_optimized_tables: GEN-TABLES. Empty forms, custom integral types, "
+    "vertex integrals with discontinuous elements, inconsistent quadrature elements: QMETA-INTERP; unknown objects: ANALYZE-OBJECTS; "
+    "codimension in the tabulation: GEN-TABVALUES; mixed-rank sums: FACT-LAWS; invalid namespaces, duplicate aliases: COMPILE-PIPELINE, "
+    "ALIAS-NAMES; oversized or negative subdomain ids: SUBDOMAIN-IDS.)",
+    min_instances=6,
 )
 def rejections(repo, res):
-    import re as _re
+    from ..absint import Interp, Node, Raised, _PyCall
+    from ..lnodes_model import load_classes
 
-    from ..flow import Slicer
+    LN = "ffcx.codegeneration.lnodes"
+    lm = repo.mod(LN)
 
-    for modname, q, pat, what in REJECTIONS:
-        m = repo.mod(modname)
-        f = m.func(q)
-        res.functions.add(f.key)
-        key = f"{f.key}:rejects:{what}"
+    def expect(key, fn, accepted, rejected, what, loc):
+        """accepted / rejected: zero-argument callables that interpret the function on a sample"""
         res.ob(key)
-        if pat is None:
-            if not any(isinstance(n, ast.Raise) for n in walk_no_nested(f.node)):
-                res.fail(key, f"{f.key} no longer rejects {what} with an exception", m.line(f.node))
-            continue
-        hit = None
-        for n in walk_no_nested(f.node):
-            if isinstance(n, ast.If) and _re.match(pat, ast.unparse(n.test)):
-                hit = n
-        if hit is None:
-            res.fail(key, f"{f.key}: the guard rejecting {what} (`{pat}`) is gone or tests something else", m.line(f.node))
-            continue
-        if not (hit.body and isinstance(hit.body[-1], ast.Raise)):
-            res.fail(key, f"{f.key}: {what} are detected but not rejected with an exception", m.line(hit))
-        if what.startswith("discontinuous"):
-            var = _re.match(pat, ast.unparse(hit.test)).group(1)
-            sl = Slicer(f.node)
-            t = sl.text(ast.Name(id=var, ctx=ast.Load()))
-            k2 = f"{f.key}:vertex-guard-scope"
-            res.ob(k2)
-            if not _re.search(r"extract_elements\(integral(\.integrand\(\))?\)", t):
-                res.fail(k2, f"the vertex-integral guard inspects `{t[:80]}` instead of every element of the integral: a discontinuous "
-                         "coefficient in a dP integral is compiled instead of rejected", m.line(hit))
-            # the guard must sit under the vertex test
-            outer = [n for n in walk_no_nested(f.node) if isinstance(n, ast.If) and any(x is hit for x in ast.walk(n)) and n is not hit]
-            if not any("integral_type() == 'vertex'" in ast.unparse(o.test) for o in outer):
-                res.fail(k2, "the discontinuity guard is no longer tied to vertex integrals", m.line(hit))
+        try:
+            accepted()
+        except Raised as e:
+            res.fail(key, f"{fn}: a supported sample is rejected ({e.what})", loc)
+            return
+        try:
+            out = rejected()
+            res.fail(key, f"{fn} accepts {what} (result {str(out)[:60]}) instead of raising: unsupported input reaches the code generator / the C compiler", loc)
+        except Raised:
+            pass
+
+    # 1. merge_dtypes
+    f = lm.func("merge_dtypes")
+    res.functions.add(f.key)
+    it = Interp(repo, load_classes(repo), primary=LN)
+    expect(f"{f.key}:rejects:untyped operands in arithmetic", "merge_dtypes", lambda: it.call_f(f, [["DataType.REAL", "DataType.INT"]]),
+           lambda: it.call_f(f, [["DataType.REAL", "DataType.NONE"]]), "an operand without a data type", lm.line(f.node))
+    # 2. ArrayAccess
+    f = lm.func("ArrayAccess.__init__")
+    res.functions.add(f.key)
+    it2 = Interp(repo, load_classes(repo), primary=LN)
+    sym = it2.construct("Symbol", ["t", "DataType.REAL"], {})
+    expect(f"{f.key}:rejects:non-symbol array bases", "ArrayAccess", lambda: it2.construct("ArrayAccess", [sym, [0]], {}),
+           lambda: it2.construct("ArrayAccess", [it2.construct("LiteralFloat", [1.5], {}), [0]], {}), "an array base that is neither a symbol nor an array declaration", lm.line(f.node))
+    # 3. integral generator blocks
+    from .genblocks import IG, _World
+    igm = repo.mod(IG)
+    g = igm.func("IntegralGenerator.generate_block_parts")
+    res.functions.add(g.key)
+
+    def ig_run(ttype0="varying", extra_factor=False):
+        w = _World(repo)
+        T = w.table
+        terms = [("f0", [(T("FE0", (1, 1, 2, 3), ttype=ttype0), None), (T("FE1", (1, 1, 2, 3)), None)])]
+        gen, blocklist = w.setup("cell", "cell", (3, 3), terms)
+        if extra_factor:
+            blocklist[0].f["factor_indices_comp_indices"] = [(0, 0), (0, 1)]
+        return w.I.call_f(g, [gen, w.rule, "triangle", ((0, 1, 2), (0, 1, 2)), blocklist])
+    expect(f"{g.key}:rejects:zero tables in blocks", "IntegralGenerator.generate_block_parts", ig_run, lambda: ig_run(ttype0="zeros"), "a block whose argument table is identically zero",
+           igm.line(g.node))
+    expect(f"{g.key}:rejects:non-scalar integrands", "IntegralGenerator.generate_block_parts", ig_run, lambda: ig_run(extra_factor=True), "a block with several integrand components",
+           igm.line(g.node))
+    # 4. expression generator
+    EG = "ffcx.codegeneration.expression_generator"
+    em = repo.mod(EG)
+    init = em.func("ExpressionGenerator.__init__")
+    res.functions.add(init.key)
+
+    def eg_init(nkeys):
+        it3 = Interp(repo, load_classes(repo), primary=EG)
+        r_ = Node("QuadratureRule", id=_PyCall(lambda: "r"))
+        integrand = {("c", Node("QuadratureRule", id=_PyCall(lambda k=k: f"r{k}"))): {} for k in range(nkeys)}
+        ir = Node("ExpressionIR", expression=Node("CommonExpressionIR", integrand=integrand))
+        o = Node("ExpressionGenerator")
+        it3.call_f(init, [o, ir, Node("FFCXBackend")])
+        return o
+    expect(f"{init.key}:rejects:several point sets", "ExpressionGenerator.__init__", lambda: eg_init(1), lambda: eg_init(2), "an expression IR with two point sets", em.line(init.node))
+    gb = em.func("ExpressionGenerator.generate_block_parts")
+    res.functions.add(gb.key)
+
+    def eg_block(ttype):
+        import itertools as _it
+        w = _World(repo)
+        w.I.obj_classes["ExpressionGenerator"] = EG
+        w.I.primary = em
+        w.I.lalias = {a for a, t in em.imports.items() if t == LN}
+        w.I.overrides["pairwise"] = _PyCall(lambda x: list(_it.pairwise(list(x))))
+        w.I.overrides["product"] = _PyCall(lambda *xs: [tuple(t) for t in _it.product(*[list(x) for x in xs])])
+        w.I.overrides["ufl.product"] = _PyCall(lambda seq: __import__("math").prod(list(seq)))
+        td = w.table("FE0", (1, 1, 2, 3), ttype=ttype)
+        gen0, blocklist = w.setup("cell", "expression", (3,), [("f0", [(td, None)])])
+        key_ = next(iter(gen0.f["ir"].f["expression"].f["integrand"]))
+        ex = gen0.f["ir"].f["expression"]
+        ex.f["shape"] = ()
+        pts = Node("ndarray", shape=(2, 2), size=4)
+        key_[1].f["points"] = pts
+        gen = Node("ExpressionGenerator", ir=gen0.f["ir"], backend=gen0.f["backend"], scope=dict(gen0.f["scopes"][key_]), quadrature_rule=key_, _ufl_names=set())
+        return w.I.call_f(gb, [gen, ((0, 1, 2),), blocklist[0]])
+    expect(f"{gb.key}:rejects:zero tables in blocks", "ExpressionGenerator.generate_block_parts", lambda: eg_block("varying"), lambda: eg_block("zeros"),
+           "a block whose argument table is identically zero", em.line(gb.node))
 
 
 @rule(
